@@ -182,11 +182,32 @@ func ruleR02b(c *Check) {
 	// callers of the executing method
 	ldo := c.P.Func("execution", "Executor", "LoadDependencyOutputs")
 	var unexpected []string
+	ldoRegion := map[*ssa.Function]bool{}
+	if ldo != nil {
+		ldoRegion = regionOf(c, ldo)
+		delete(ldoRegion, ex.ExecMethod)
+		for f := range regionOf(c, ex.ExecMethod) {
+			if f != ldo {
+				delete(ldoRegion, f)
+			}
+		}
+		// only helpers on the way to the executing method matter
+		for f := range ldoRegion {
+			if f != ldo && !c.G.ReachableFuncs([]*ssa.Function{f}, nil)[ex.ExecMethod] {
+				delete(ldoRegion, f)
+			}
+		}
+		for _, f := range regionEntrants(c, ldoRegion, ldo) {
+			if f != g.Fn && engine.TopFunc(f) != ex.ExecMethod {
+				unexpected = append(unexpected, c.P.FuncName(f)+" (calls a helper of the dependency loader)")
+			}
+		}
+	}
 	for _, f := range c.G.CallerFuncs(ex.ExecMethod) {
 		if f == g.Fn {
 			continue
 		}
-		if ldo != nil && engine.TopFunc(f) == ldo {
+		if ldo != nil && (engine.TopFunc(f) == ldo || ldoRegion[engine.TopFunc(f)]) {
 			continue
 		}
 		unexpected = append(unexpected, c.P.FuncName(f))
@@ -236,58 +257,91 @@ func ruleR02c(c *Check, rule string) {
 		}
 		okOwn := true
 		var pos string
-		for _, b := range fn.Blocks {
-			for _, in := range b.Instrs {
-				fa, ok := in.(*ssa.FieldAddr)
-				if !ok || engine.FieldKeyOf(fa.X.Type(), fa.Field) != changeHashKey {
-					continue
-				}
-				if !sameVar(fa.X, ownBase) {
-					okOwn = false
-					pos = c.P.InstrPos(fa)
+		region := regionOf(c, fn)
+		var regionFns []*ssa.Function
+		for f := range region {
+			regionFns = append(regionFns, f)
+		}
+		sort.Slice(regionFns, func(i, j int) bool { return c.P.FuncName(regionFns[i]) < c.P.FuncName(regionFns[j]) })
+		for _, rf := range regionFns {
+			for _, b := range rf.Blocks {
+				for _, in := range b.Instrs {
+					fa, ok := in.(*ssa.FieldAddr)
+					if !ok || engine.FieldKeyOf(fa.X.Type(), fa.Field) != changeHashKey {
+						continue
+					}
+					if rf == fn && sameVar(fa.X, ownBase) {
+						continue
+					}
+					// in a helper: only through a parameter that receives the target being hashed
+					okHelper := false
+					if prm, isP := fa.X.(*ssa.Parameter); isP && rf != fn {
+						okHelper = true
+						for _, cs := range c.G.CallersOf(rf) {
+							idx := -1
+							for k, fp := range rf.Params {
+								if fp == prm {
+									idx = k
+								}
+							}
+							if cs.Parent() != fn || idx < 0 || idx >= len(cs.Common().Args) || !sameVar(cs.Common().Args[idx], ownBase) {
+								okHelper = false
+							}
+						}
+					}
+					if !okHelper {
+						okOwn = false
+						pos = c.P.InstrPos(fa)
+					}
 				}
 			}
 		}
 		c.Require(okOwn, rule, "deps-key-on-output-hash/"+fname, "ChangeHash is read only from the target being hashed; dependency digests are OutputHash values", "a dependency's ChangeHash is read while composing the key: dependants would be invalidated by any upstream change even when the rebuilt dependency reproduces identical outputs (no early cut-off)", pos)
-		// each target dependency contributes
+		// each target dependency contributes (in the composer itself or in a helper it is split into)
 		ohKey := fk("model.Target", "OutputHash")
-		var store *ssa.Store
-		for _, b := range fn.Blocks {
-			for _, in := range b.Instrs {
-				st, ok := in.(*ssa.Store)
-				if !ok {
-					continue
-				}
-				if _, isIdx := st.Addr.(*ssa.IndexAddr); !isIdx {
-					continue
-				}
-				if _, ok := fieldReadOn(st.Val, "OutputHash"); ok {
-					store = st
+		handled := false
+		for _, rf := range regionFns {
+			var store *ssa.Store
+			for _, b := range rf.Blocks {
+				for _, in := range b.Instrs {
+					st, ok := in.(*ssa.Store)
+					if !ok {
+						continue
+					}
+					if _, isIdx := st.Addr.(*ssa.IndexAddr); !isIdx {
+						continue
+					}
+					if _, ok := fieldReadOn(st.Val, "OutputHash"); ok && engine.InLoop(st) {
+						store = st
+					}
 				}
 			}
-		}
-		if store == nil {
+			if store != nil {
+				checkContribution(c, rule, "every-dependency-contributes/"+fname, rf, store)
+				handled = true
+				break
+			}
 			// append form
-			for _, s := range engine.SitesIn(fn) {
-				if call, ok := s.(*ssa.Call); ok {
+			for _, s := range engine.SitesIn(rf) {
+				if call, ok := s.(*ssa.Call); ok && !handled {
 					if b, ok := call.Call.Value.(*ssa.Builtin); ok && b.Name() == "append" {
 						for _, a := range call.Call.Args[1:] {
-							back := c.G.Backward([]Node{a}, localTo(fn))
-							if back.Has(ohKey) {
-								store = nil
-								key := "every-dependency-contributes/" + fname
-								checkContribution(c, rule, key, fn, call)
-								goto next
+							back := c.G.Backward([]Node{a}, localTo(rf))
+							if back.Has(ohKey) && !handled {
+								checkContribution(c, rule, "every-dependency-contributes/"+fname, rf, call)
+								handled = true
 							}
 						}
 					}
 				}
 			}
-			c.Bad(rule, "every-dependency-contributes/"+fname, "no dependency OutputHash is collected while composing the key", c.P.Pos(fn.Pos()))
-			continue
+			if handled {
+				break
+			}
 		}
-		checkContribution(c, rule, "every-dependency-contributes/"+fname, fn, store)
-	next:
+		if !handled {
+			c.Bad(rule, "every-dependency-contributes/"+fname, "no dependency OutputHash is collected while composing the key", c.P.Pos(fn.Pos()))
+		}
 	}
 	// restore sets OutputHash
 	if lo := c.P.Func("output", "Registry", "LoadOutputs"); lo != nil {
